@@ -3,6 +3,7 @@
 package main
 
 import (
+	"sync"
 	"encoding/json"
 	"fmt"
 	"math"
@@ -616,6 +617,56 @@ func init() {
 				}
 			}
 		}
+		// Concurrent evaluation: the functions are shared by all runs of a process. For every function a table of arguments is
+		// evaluated once sequentially; then 8 goroutines evaluate the same table at the same time (each in its own order) and
+		// every result must equal the sequential one.
+		concurrentCalls := 0
+		for _, fn := range names {
+			if fn == "readFile" || fn == "getEnvVar" {
+				continue
+			}
+			f := funcs[fn]
+			table := genArgs(fn, f.Parameters(), rng, 24)
+			type outcome struct {
+				r   any
+				err bool
+				pan bool
+			}
+			want := make([]outcome, len(table))
+			for i, a := range table {
+				r, err, p := safeCall(f, a)
+				want[i] = outcome{r, err != nil, p != nil}
+			}
+			var mu sync.Mutex
+			var wg sync.WaitGroup
+			start := make(chan struct{})
+			reported := false
+			for w := 0; w < 8; w++ {
+				wg.Add(1)
+				go func(w int) {
+					defer wg.Done()
+					<-start
+					for rep := 0; rep < 40; rep++ {
+						for k := range table {
+							i := (k*7 + w*3 + rep) % len(table)
+							r, err, p := safeCall(f, table[i])
+							got := outcome{r, err != nil, p != nil}
+							if got.err != want[i].err || got.pan != want[i].pan || (!got.err && !got.pan && !sameValue(got.r, want[i].r)) {
+								mu.Lock()
+								if !reported {
+									reported = true
+									add(fn, "same-result-when-called-concurrently", table[i], fmt.Sprintf("sequential call gave %v, the same call made while other goroutines call the function gave %v", want[i].r, got.r))
+								}
+								mu.Unlock()
+							}
+						}
+					}
+				}(w)
+			}
+			close(start)
+			wg.Wait()
+			concurrentCalls += 8 * 40 * len(table)
+		}
 		// de-duplicate by key, keep the first witness
 		seen := map[string]bool{}
 		var uniq []fnViolation
@@ -626,6 +677,6 @@ func init() {
 			}
 		}
 		res.Extra = map[string]any{"violations": uniq, "calls": calls, "errors_returned": errsReturned, "per_function": perFn, "classes": len(classes),
-			"expression_evaluations": exprChecked, "samples": samples, "functions": names}
+			"expression_evaluations": exprChecked, "concurrent_calls": concurrentCalls, "samples": samples, "functions": names}
 	}
 }
